@@ -124,12 +124,11 @@ class PersistentMixin(Module):
         may be called from a module when a hardware power down is detected
         """
         loaded = self.loadPersistentData()
-        for pname, value in loaded.items():
-            pobj = self.parameters[pname]
-            pobj.value = value
-            pobj.readerror = None
-            if hasattr(self, 'write_' + pname):
-                self.writeDict[pname] = value
+        # writeInitParams writes each value to the HW, or assigns it when there is no write_<param>.
+        # both go through announceUpdate: the new value and the recovery from an error are announced.
+        # as saveParameters does nothing while writeDict is not empty, persistent='auto' saves only
+        # after the last value, not the half loaded data
+        self.writeDict.update(loaded)
         self.writeInitParams()
         return loaded
 
